@@ -51,6 +51,9 @@ Proof.
     destruct fail; injection H as <-; simpl;
       (destruct (Nat.eq_dec x t) as [->|Hne]; [right; right; right; rewrite upd_eq, Hpc; split; auto; unfold after_put; destruct sg; auto; destruct o; auto | left; now rewrite upd_neq]).
   - destruct (pcs s t) as [|c0| | |old|nw o|oi ap|r|r|r] eqn:Hpc; try discriminate.
+    injection H as <-; simpl;
+      (destruct (Nat.eq_dec x t) as [->|Hne]; [right; right; right; rewrite upd_eq, Hpc; auto | left; now rewrite upd_neq]).
+  - destruct (pcs s t) as [|c0| | |old|nw o|oi ap|r|r|r] eqn:Hpc; try discriminate.
     destruct fail; [|destruct ap]; injection H as <-; simpl;
       (destruct (Nat.eq_dec x t) as [->|Hne]; [right; right; right; rewrite upd_eq, Hpc; auto | left; now rewrite upd_neq]).
   - destruct (pcs s t) as [|c0| | |old|nw o|oi ap|r|r|r] eqn:Hpc; try discriminate.
@@ -388,7 +391,7 @@ Proof.
     { intros s' Hs Hn. assert (I' : InvS s') by exact (stepS sg (l_s m) e s' I Hs).
       assert (V' : InvV r0 s') by exact (stepV sg r0 (l_s m) e s' I V Hs).
       split; [|split; auto]. apply (linv_idx sg r0 m e s'); auto. }
-    destruct e as [t c|t|t|t f|t|t f|t f|t|t|]; cbn -[step] in H;
+    destruct e as [t c|t|t|t f|t|t f|t|t f|t|t|]; cbn -[step] in H;
       try (match type of H with match step ?a ?b ?ev with _ => _ end = _ =>
              destruct (step a b ev) as [s'|] eqn:Hs; [|discriminate]; injection H as <-;
              apply Hgen; auto; intros ? ? ?; discriminate end).
@@ -418,7 +421,7 @@ Proof.
     destruct (has_entry t (ckey (arg (l_s m) t)) false (l_inflight m)) eqn:He; simpl in H; [|discriminate].
     apply has_entry_In in He.
     assert (Hr : r <> RErr) by (destruct r; simpl in H; congruence).
-    assert (E : (if negb match r with RErr => true | _ => false end then
+    assert (E : (if negb (plain_err r) then
                    Some (mkL (l_s m) (filter (fun x => negb (x =? ckey (arg (l_s m) t))) (l_live m)) (drop_tid t (l_inflight m)) (l_taint m))
                  else None) = Some m') by exact H.
     destruct r; simpl in E; try congruence; injection E as <-;
@@ -451,6 +454,8 @@ Proof.
       * rewrite Hpc. reflexivity.
       * intros k' Hk'. now right.
       * left. now left.
+    + destruct (is_add (arg (l_s m) t)) eqn:Ha; injection H as <-; (split; [|split; auto]); auto.
+      eapply Hok; eauto. discriminate.
 Qed.
 
 Lemma lrun_inv sg r0 tr : forall m m',
